@@ -68,7 +68,8 @@ var Includes = map[string][]string{
 	// names move through the same plumbing calls
 	"C18": {"C10.nul-protocol"},
 	// a stale 'latest' state breaks the prediction only
-	"C19": {"C08.latest-reads-tip", "C11.all-rules-checked"},
+	// the predictor's file-rule loop must have the verifier's shape (every path, per-commit shortcut) and its global-rule relaxation is decided in the shared function
+	"C19": {"C08.latest-reads-tip", "C11.all-rules-checked", "C10.every-path"},
 }
 
 // RulesFor returns the rules evaluated for a property: its own plus the included ones.
